@@ -5,6 +5,8 @@ V = os.path.dirname(os.path.dirname(os.path.abspath(__file__)))
 print("| twin | property | refactoring (one line) | reported at first by | now |")
 print("|---|---|---|---|---|")
 for d in sorted(glob.glob(os.path.join(V, "twins", "*"))):
+    if not os.path.isdir(d):
+        continue
     m = json.load(open(os.path.join(d, "meta.json")))
     def one(s, n):
         s = " ".join(str(s or "").split())
@@ -18,5 +20,9 @@ for d in sorted(glob.glob(os.path.join(V, "twins", "*"))):
             reason = why.split("reason=")[1].split()[0] if "reason=" in why else "analysis error"
             now.append("%s: undecided (`%s`)" % (pid, reason))
     first = m.get("false_alarms_at_first", [])
+    if len(now) > 4:
+        now = now[:3] + ["… %d checks in all" % len(now)]
+    if len(first) > 8:
+        first = first[:7] + ["…"]
     print("| `%s` | %s | %s | %s | %s |" % (os.path.basename(d), m.get("property"), one(m.get("summary"), 200).replace("|", "\\|"),
                                          ", ".join(first) or "–", "; ".join(now) or "silent"))
